@@ -171,3 +171,31 @@ func init() {
 		Rules:       []ruleFn{ruleR20_1, ruleR20_2, ruleR20_3},
 	})
 }
+
+// cross-listings and rules added after the second round of independent changes (DESIGN.md section 11)
+func init() {
+	add := func(id string, rules ...ruleFn) { registry[id].Rules = append(registry[id].Rules, rules...) }
+	add("C01", ruleR09_4, ruleR09_5, ruleR04_7)
+	add("C02", ruleR09_2, ruleR04_7)
+	add("C03", ruleR09_3, ruleR15_4, ruleR03_8)
+	add("C04", ruleR05_5, ruleR04_7)
+	add("C05", ruleR09_2, ruleR13_1)
+	add("C06", ruleR13_1)
+	add("C07", ruleR13_1)
+	add("C08", ruleR13_1, ruleR20_3)
+	add("C09", ruleR13_3, ruleR03_8)
+	add("C11", ruleR12_3, ruleR11_5, ruleR12_5)
+	add("C12", ruleR12_5, ruleR12_8)
+	add("C13", ruleR13_4)
+	add("C15", ruleR03_8)
+	add("C16", ruleR05_1, ruleR12_5)
+	add("C17", ruleR17_7)
+	add("C18", ruleR18_6, ruleR18_7)
+	add("C19", ruleR04_7)
+	add("C20", ruleR15_4, ruleR18_5)
+	for _, id := range []string{"C04", "C13"} {
+		registry[id].NeedsServer = registry[id].NeedsServer || id == "C13"
+	}
+	// R05.5 (6) and R13.1 read the server module
+	registry["C04"].NeedsServer = false
+}
